@@ -146,6 +146,30 @@ def r18_2(prog, rep):
         if not T.contains(r, lambda s: s == second):
             ok = False
         del uses_val
+    # ... and where the helper answers "these are pairs already", they are what is iterated: not run through a strategy again
+    first = ("unpack", helper, 0, 2)
+    direct = False
+    restrategised = False
+    def _alts(tm, conds=()):
+        if tm[0] == "ifexp":
+            return _alts(tm[2], conds + ((tm[1], True),)) + _alts(tm[3], conds + ((tm[1], False),))
+        return [(tm, conds)]
+
+    it_paths = P.paths_of(prog, it_f)
+    exits = [(p, r) for p, r in P.returns(it_paths)]
+    # the generator spelling: `yield from it` under the test, `yield from iterate(it)` otherwise
+    exits += [(p, e[1]) for p in it_paths for e in p.events if e[0] in ("yield", "yieldfrom")]
+    for p, r0 in exits:
+        for r, extra in _alts(r0):
+            gs = list(p.guards()) + list(extra)
+            is_pairs = any(pol and g == first for g, pol in gs)
+            not_pairs = any((not pol) and g == first for g, pol in gs)
+            plain = r == second or (T.is_call_to(r, "builtins.iter") and r[2] == (second,)) or r == ("const", None) or r == T.elem(second)
+            if is_pairs and plain and r != ("const", None):
+                direct = True
+            if not plain and not not_pairs:
+                restrategised = True
+    rep.check(direct and not restrategised, "R18.2", it_f.qualname, it_f.loc, "an iterable of pairs is iterated as it is; only what is not one goes through a strategy", "iteritems runs a strategy over a value the helper found to be an iterable of pairs already (or never returns the pairs as they are): [('a', 1), ('b', 2)] comes out as (0, ('a', 1)), (1, ('b', 2)) -- a mapping given as JSON pairs is read as a list of positions", detail="pairs-as-they-are")
     rep.check(ok, "R18.2", it_f.qualname, it_f.loc, "iteritems iterates the helper's returned iterable, never the original argument", "iteritems iterates the original argument after the helper may have consumed its first element", detail="handoff")
 
 
